@@ -550,7 +550,8 @@ theorem addCore_value (op : OpSym) (a b : Desc) (hn : a.numer = b.numer) (hd : a
 
 /-- **pow rule.** `Scalar ** e` for a unit-less Scalar base without denominator and an exponent that is a rank-0 unit-less
     Scalar object: ValueError iff the LEADING shapes do not broadcast; otherwise a Scalar of the broadcast shape whose
-    kind is float when an integer exponent is negative, else the promoted kind (int ** int stays int). -/
+    kind is float when an integer exponent has a negative value at an unmasked position (`negInt`), else the promoted kind
+    (int ** int stays int; numbers hidden under the exponent's mask have no say). -/
 theorem powDispatch_rule (a b : Desc) (negInt : Bool) (ha : a.isQ = true) (hc : a.cls = .scalar)
     (hu : a.units = none) (hd : a.denom = []) (hb : b.isQ = true) (hbc : b.cls = .scalar) (hbr : b.rank = 0)
     (hbu : unitsIsUnitless b.units = true) :
